@@ -18,7 +18,8 @@ EXPLANATION = (
     "the frontend's server for backend-initiated requests the set of requests whose arm dereferences the received "
     "files equals the set for which the attached-file policy demands exactly one file, and equals the protocol's; "
     "every handler call site is dominated by the size check and the body validator; (A4) every panic-capable "
-    "operation reachable from these parsers is discharged.")
+    "operation reachable from these parsers is discharged."
+    " Also: (A3) no handler of the frontend's request server is reached for a header with the REPLY flag (directly or through a size-check helper all of whose Ok paths carry the fact); (A5, A6) C20/X2 and C08/S7.")
 NOT_DECIDED = "That every mutated byte string is rejected: this is the union of the conjuncts above with C20's exact validator regions."
 
 
